@@ -7,7 +7,7 @@ import concurrent.futures as cf
 import os
 import time
 
-from lib import evidence, goenv, graph, tlc
+from lib import evidence, extension, goenv, graph, tlc
 from lib.common import MachineryError, classify_mismatches, log
 
 PKG = "./p2p/host/observedaddrs"
@@ -227,23 +227,96 @@ def _race_guard(args):
     return {"tag": "race_early"}
 
 
+ASYNC_INV = "INVARIANTS ATypeOK CreditOnlyOpenQA LatestReportQ"
+ASYNC_PROPS = "PROPERTIES NoCreditAfterCloseA"
+
+
+def _async_print(args):
+    """spec/C17_Async.tla, burst-shaped behaviours (emit* / mark / remove / drain) for the replay on a started Manager."""
+    ctx, cap, beh_dir = args
+    os.environ["JAVA_TOOL_OPTIONS"] = JAVA_OPTS
+    tag = "async_Q%d" % cap
+    cfg = tlc.subst_cfg("C17_Async.cfg", {"Cap": cap, "Emit": "TRUE"}, replace=[
+        ("INIT AInit", "INIT AMCInit"), ("NEXT ANextAll", "NEXT ANextBurst"),
+        ("VIEW AView", "VIEW AViewNoGhost\nACTION_CONSTRAINT AEmitEdge"),
+        (ASYNC_INV, "INVARIANTS ATypeOK CreditOnlyOpenQA")])
+    r = tlc.run(ctx, "C17_Async", "gen_%s_edges.cfg" % tag, cfg_text=cfg, workers=1, timeout=900, heap=HEAP, name="ed" + tag)
+    if not r.ok:
+        raise MachineryError("design-level failure in C17 %s: %s violated\n%s" % (tag, r.violated, r.out[-2500:]))
+    insts = [o for t, o in r.prints if t == "VFINST"]
+    g = graph.Graph(r.inits, r.edges)
+    if len(insts) != 1 or g.n_edges() == 0 or g.n_states() != r.distinct:
+        raise MachineryError("C17 %s: printed graph has %d states / %d edges, TLC found %d states"
+                             % (tag, g.n_states(), g.n_edges(), r.distinct))
+    facts = {"drain_with_two_reports_of_one_connection": 0, "emit_dropped_queue_full": 0,
+             "drain_with_report_of_closed_connection": 0, "drain_changes_a_credit": 0}
+    for sk, op, _t in g.edges:
+        st = g.states[sk]
+        if op["name"] == "emit" and not op["acc"]:
+            facts["emit_dropped_queue_full"] += 1
+        if op["name"] == "drain":
+            cs = [e["c"] for e in st["wch"]]
+            facts["drain_with_two_reports_of_one_connection"] += 1 if len(set(cs)) < len(cs) else 0
+            facts["drain_with_report_of_closed_connection"] += 1 if any(not st["open"][c] for c in cs) else 0
+            facts["drain_changes_a_credit"] += 1 if any(st["obs"][c] not in ("none", op["obs"][c]) for c in st["obs"]) else 0
+    for k, v in facts.items():
+        if not v:
+            raise MachineryError("vacuous async behaviours: no transition with %s" % k)
+    walks = _covering_walks(g, ctx.seed, 40)
+    os.makedirs(os.path.join(beh_dir, "async"), exist_ok=True)
+    graph.write_behaviours(os.path.join(beh_dir, "async", tag + ".jsonl"), walks,
+                           {"inst": insts[0], "edges": g.n_edges(), "states": g.n_states()})
+    return {"tag": tag, "distinct": r.distinct, "generated": r.generated, "edges": g.n_edges(), "walks": len(walks),
+            "steps": sum(len(w["steps"]) for w in walks), "wall": r.wall, "facts": facts}
+
+
+def _async_mc(args):
+    """Exhaustive: every interleaving of the worker (Work and Drain) with emits and closes; with the ghost `last`."""
+    ctx, cap = args
+    os.environ["JAVA_TOOL_OPTIONS"] = JAVA_OPTS
+    cfg = tlc.subst_cfg("C17_Async.cfg", {"Cap": cap})
+    r = tlc.run(ctx, "C17_Async", "gen_async_Q%d_mc.cfg" % cap, cfg_text=cfg, workers=1, timeout=900, heap=HEAP,
+                name="mcasyncQ%d" % cap)
+    if not r.ok:
+        raise MachineryError("design-level failure in C17_Async Cap=%d: %s violated\n%s" % (cap, r.violated, r.out[-2500:]))
+    return {"tag": "async_Q%d_all_interleavings" % cap, "distinct": r.distinct, "generated": r.generated, "wall": r.wall}
+
+
+def _async_guard(args):
+    """The batch variant that keeps the first report per connection must violate LatestReportQ in the model."""
+    (ctx,) = args
+    os.environ["JAVA_TOOL_OPTIONS"] = JAVA_OPTS
+    cfg = tlc.subst_cfg("C17_Async.cfg", {"OldestWins": "TRUE"}, replace=[(ASYNC_INV, "INVARIANTS LatestReportQ"),
+                                                                           (ASYNC_PROPS, "")])
+    r = tlc.run(ctx, "C17_Async", "gen_async_oldest.cfg", cfg_text=cfg, workers=1, timeout=300, heap=HEAP, name="gasyncold")
+    if r.ok or r.violated != "LatestReportQ":
+        raise MachineryError("vacuity guard: C17_Async does not distinguish 'oldest queued report wins' (LatestReportQ holds)")
+    return {"tag": "async_oldest_wins"}
+
+
 def _job(a):
     kind, rest = a[0], a[1:]
     return kind, {"print": _print_one, "mc": _mc_one, "guard": _guard_one, "race": _race_one,
-                  "raceguard": _race_guard}[kind](rest)
+                  "raceguard": _race_guard, "async": _async_print, "asyncmc": _async_mc,
+                  "asyncguard": _async_guard}[kind](rest)
 
 
 def run(ctx):
     if ctx.replay:
         return replay(ctx)
     beh_dir = ctx.sub("beh")
+    ext = extension.start_all(ctx, ["C17am"])   # the consumer named in the anchors: the basic host's address manager
     tlc.stage(ctx)
     pr = replay_instances(ctx)
     mo = mc_only_instances(ctx)
     jobs = [("mc", ctx, i) for i in mo]                       # longest first
     jobs += [("print", ctx, i, beh_dir) for i in sorted(pr, key=lambda i: -len(i[0]))]
     jobs += [("race", ctx, th, beh_dir) for th in ((1, 2) if ctx.tier == "thorough" else (1,))]
-    jobs += [("guard", ctx, g) for g in GUARDS] + [("raceguard", ctx)]
+    acap = 3 if ctx.tier == "thorough" else 2
+    jobs += [("async", ctx, acap, beh_dir), ("asyncmc", ctx, acap)]
+    # the two base-module guards duplicate graph-side facts (same_group_twice, truncation): thorough tier only
+    jobs += [("guard", ctx, g) for g in (GUARDS if ctx.tier == "thorough" else [])]
+    jobs += [("raceguard", ctx), ("asyncguard", ctx)]
     # at most 4 TLC worker threads at a time: every run uses one worker
     with cf.ProcessPoolExecutor(max_workers=4) as ex:
         results = list(ex.map(_job, jobs))
@@ -253,8 +326,9 @@ def run(ctx):
     races = [r for k, r in results if k == "race"]
     if not all(r["late_records"] for r in races):
         raise MachineryError("vacuous race behaviours: no record step after close+remove of its connection")
-    states = sum(r["distinct"] for r in prints + mcs + races)
-    trans = sum(r["generated"] for r in prints + mcs + races)
+    asyncs = [r for k, r in results if k in ("async", "asyncmc")]
+    states = sum(r["distinct"] for r in prints + mcs + races + asyncs)
+    trans = sum(r["generated"] for r in prints + mcs + races + asyncs)
     edges_total = sum(r["edges"] for r in prints)
     n_walks = sum(r["walks"] for r in prints)
     facts = {}
@@ -276,6 +350,11 @@ def run(ctx):
             raise MachineryError("no walk was replayed at the production threshold")
         if not extra.get("race_composites_fired_inside_the_call") or not extra.get("race_quiescent_comparisons"):
             raise MachineryError("the interference replay never fired inside a maybeRecordObservation call")
+        a_steps = sum(r["steps"] for k, r in results if k == "async")
+        if (extra.get("async_steps") or 0) < a_steps or not extra.get("async_bursts_drained") \
+                or not extra.get("async_events_dropped_queue_full"):
+            raise MachineryError("the asynchronous replay executed %s of %d steps (bursts drained: %s)"
+                                 % (extra.get("async_steps"), a_steps, extra.get("async_bursts_drained")))
     log("C17: %d printed + %d mc-only instances, %d states, %d transitions generated, %d replay transitions, %d walks, "
         "%d steps (+%s at the production threshold)" % (len(prints), len(mcs), states, trans, edges_total, n_walks,
                                                         res["steps"], extra.get("default_threshold_steps")))
@@ -300,17 +379,28 @@ def run(ctx):
               "composites_fired_inside_the_call": extra.get("race_composites_fired_inside_the_call"),
               "quiescent_comparisons": extra.get("race_quiescent_comparisons"),
               "guard": "CreditOnlyOpenQ violated for EarlyCheck=TRUE"},
+        async_path={"instances": {r["tag"]: {k: r[k] for k in r if k not in ("tag",)} for r in asyncs},
+                    "real_queue_capacity": extra.get("async_real_queue_capacity"),
+                    "walks": extra.get("async_walks"), "steps": extra.get("async_steps"),
+                    "events_emitted": extra.get("async_events_emitted"),
+                    "events_dropped_queue_full": extra.get("async_events_dropped_queue_full"),
+                    "bursts_drained": extra.get("async_bursts_drained"),
+                    "quiescent_comparisons": extra.get("async_quiescent_comparisons"),
+                    "guard": "LatestReportQ violated for OldestWins=TRUE"},
         steps_where_keeping_credit_after_filtered_report_matters=extra.get(
             "steps_where_keeping_credit_after_filtered_report_matters", 0),
-        vacuity_guards=[g[3] + "@" + _tag(*g[:3]) for g in GUARDS], reached=facts,
+        vacuity_guards=[g[3] + "@" + _tag(*g[:3]) for g in (GUARDS if ctx.tier == "thorough" else [])], reached=facts,
         divergences_L2=div, notes=ctx.notes[:10], rule=res.get("rule"))
+    extension.finish_all(ctx, ext, cov)
     return {"level": "model_checking", "coverage": cov, "assumptions": [
         "bounded universes (<=7 connections, <=5 observer groups, <=4 observed addresses, thresholds 1..3); the production "
         "threshold is exercised through the scale map (one model observer group = ActivationThresh/Thresh distinct real "
         "IPs or /56s), not exhaustively",
         "the listen-address set is fixed during a behaviour; Observe/CloseConn are the synchronous bodies "
-        "(maybeRecordObservation, removeConn) of the worker goroutine and of the Disconnected notification - the event "
-        "bus hand-off and its bounded queue (dropped observations) are outside the model",
+        "(maybeRecordObservation, removeConn) of the worker goroutine and of the Disconnected notification in the main "
+        "model; the event-bus hand-off, the bounded worker queue (drop when full) and the worker loop are modelled in "
+        "C17_Async.tla and replayed on a started Manager (real event bus, synctest) with observedAddrManagerWorkerChannelSize "
+        "set to the model's capacity; only burst-shaped schedules (worker held, events queued, worker released) are forced",
         "a filtered report (loopback, NAT64, relayed, inconsistent transport) is taken as 'not received': the "
         "connection's earlier credited observation stays, as the code does; the other reading (the report changed, so "
         "it is withdrawn) is accepted too and would be reported as L2 divergence",
@@ -350,6 +440,7 @@ MANIFEST = {
     "note": "Trusted: TLC, the harness's concretisation map, in-package reads of externalAddrs/connObservedTWAddrs (L2 "
             "only). Bounded universes; listen addresses fixed; the asynchronous hand-off (event bus, worker queue that may "
             "drop observations) is not modelled. Tie order and Addrs(1) are L2 only.",
-    "engines": [{"name": "C17_ObservedAddrs", "path": "spec/C17_ObservedAddrs.tla", "serves_properties": ["C17"],
+    "engines": [{"name": "C17am_AddrsManager", "path": "spec/C17am_AddrsManager.tla", "serves_properties": ["C17"], "kind_free_text": "extension engine (checks/C17am.py, run as a part of C17): TLA+ spec of the basic host's address manager (inputs, the background loop's select, non-atomic updates, reachability tracker, Start/Close; 8 invariants, 5 action properties, liveness); TLC exhaustive; every printed transition replayed on the real addrsManager, event bus, peerstore and tracker under synctest with gates at the select and at every stub read"},
+                {"name": "C17_ObservedAddrs", "path": "spec/C17_ObservedAddrs.tla", "serves_properties": ["C17"],
                  "kind_free_text": "TLA+ spec + TLC exhaustive + full-transition replay"}],
 }
